@@ -593,16 +593,18 @@ fn shape_batches<P: G>(cfg: Cfg) -> Box<dyn Case> {
                 let (sb, pb, okb) = &members[1][b];
                 let sts = vec![sa.clone(), sb.clone()];
                 let proofs = vec![P::proof_clone(pa), P::proof_clone(pb)];
-                let mut ts = vec![CTX_A.transcript(), CTX_A.transcript()];
-                let obs = verify_observed(&sts, &proofs, &mut ts, VerifyAction::VerifyOnly);
-                res.executions += 1;
-                res.validated += 1;
-                *res.outcome_counter(if obs.is_ok() { "batch-accept" } else { "batch-reject" }) += 1;
-                if obs.panic.is_some() || obs.is_ok() != (*oka && *okb) {
-                    res.violate(
-                        format!("[{},{}]", kinds[a].0, kinds[b].0),
-                        format!("batch [{}, {}]: library says {} but the reference verdicts of the members are [{}, {}]", kinds[a].0, kinds[b].0, obs.describe(), oka, okb),
-                    );
+                for mode in [VerifyAction::VerifyOnly, VerifyAction::RecoverAndVerify] {
+                    let mut ts = vec![CTX_A.transcript(), CTX_A.transcript()];
+                    let obs = verify_observed(&sts, &proofs, &mut ts, mode);
+                    res.executions += 1;
+                    res.validated += 1;
+                    *res.outcome_counter(if obs.is_ok() { "batch-accept" } else { "batch-reject" }) += 1;
+                    if obs.panic.is_some() || obs.is_ok() != (*oka && *okb) {
+                        res.violate(
+                            format!("[{},{}]/{}", kinds[a].0, kinds[b].0, mode_name(mode)),
+                            format!("batch [{}, {}] in {}: library says {} but the reference verdicts of the members are [{}, {}]", kinds[a].0, kinds[b].0, mode_name(mode), obs.describe(), oka, okb),
+                        );
+                    }
                 }
             }
         }
